@@ -244,6 +244,16 @@ func (d *Decoder) decodeNALUs(pkt *rtp.Packet) ([][]byte, error) {
 func (d *Decoder) Decode(pkt *rtp.Packet) ([][]byte, error) {
 	nalus, err := d.decodeNALUs(pkt)
 	if err != nil {
+		// the first fragment of a NALU with a different timestamp has been received:
+		// the access unit in the buffer is complete, return it now instead of
+		// waiting for the last fragment.
+		if errors.Is(err, ErrMorePacketsNeeded) &&
+			d.frameBuffer != nil && pkt.Timestamp != d.frameBufferTimestamp {
+			ret := d.frameBuffer
+			d.resetFrameBuffer()
+			return ret, nil
+		}
+
 		return nil, err
 	}
 	l := len(nalus)
